@@ -28,7 +28,8 @@ ALLK = ("neuron", "synapse", "connection", "layer", "reducer")
 CLASSES = {"neuron": ["LIF", "ALIF"], "synapse": [None], "connection": ["LinearDense", "LinearDirect"],
            "layer": ["LinearDense"],
            "reducer": ["NearestTraceReducer", "PassthroughReducer", "CumulativeTraceReducer", "EMAReducer", "CAReducer",
-                       "EventReducer"]}
+                       "EventReducer", "ScaledNearestTraceReducer", "ScaledCumulativeTraceReducer",
+                       "ConditionalNearestTraceReducer", "ConditionalCumulativeTraceReducer"]}
 
 
 def consts(kinds, maxlen, dts=(1, 2, 3), delays=(0, 2, 3), durs=(1, 3, 4), batches=(1, 3), syns=("delta", "double"),
